@@ -6,6 +6,7 @@ from vlib import room
 
 
 def run(ctx):
+    ctx.repro_attempts = 6   # order- and schedule-dependent misbehaviour is retried in fresh processes
     ctx.exhaustive = False
     ctx.assumptions += ["Go map-iteration order and list shuffles are sampled (seeded), not enumerated"]
     ctx.notes["rule"] = ("every Room_gen.tla query x {baseline, reversed sets, 3 seeded shuffles, duplicated auth "
